@@ -4,7 +4,7 @@ import "math/rand"
 
 func init() {
 	register(recvProp{id: "C12", w: 1, gen: genC12,
-		rule: "for each generated inbound stream (mixed stanzas with text, entities, nested unknown elements; <r/>, <a/>), the connection is cut at EVERY byte offset of the stream (exhaustive per stream), SM on/off, plus write faults at each answer; one stream in three is read through the real XMPPTransport path (traffic logger + buffered decoder) over a scripted net.Conn whose last bytes arrive together with the read error; goroutines of the library are counted after quiescence; distinct = (stream, offset); non-trivial = at least 2 complete stanzas before the cut"})
+		rule: "for each generated inbound stream (mixed stanzas with text, entities, nested unknown elements; <r/>, <a/>), the connection is cut at EVERY byte offset of the stream (exhaustive per stream), SM on/off, plus write faults at each answer; one stream in three is read through the real XMPPTransport path (traffic logger + buffered decoder) over a scripted net.Conn whose last bytes arrive together with the read error; plus sessions over the real WebSocket transport whose TCP connection the peer resets (detected through the keepalive); goroutines of the library are counted after quiescence; distinct = (stream, offset); non-trivial = at least 2 complete stanzas before the cut"})
 }
 
 func genC12(r *rand.Rand, tier string) []interface{} {
@@ -46,6 +46,24 @@ func genC12(r *rand.Rand, tier string) []interface{} {
 			in.WFail = k
 			out = append(out, in)
 		}
+	}
+	// the WebSocket transport: the peer resets the TCP connection under the websocket after
+	// everything was delivered; the loss has to be noticed (keepalive) and reported once
+	nws := 2
+	if tier == "thorough" {
+		nws = 20
+	}
+	for i := 0; i < nws; i++ {
+		in := recvIn{Cut: -1, WS: true, PeerCut: true, SM: i%2 == 0}
+		items := genItems(r, 1+r.Intn(8), false, false)
+		for k := range items {
+			if items[k].T == "stanza" && items[k].Var%len(textPool) >= 6 {
+				items[k].Var -= items[k].Var % len(textPool)
+				items[k].render()
+			}
+		}
+		in.Items = wsify(items)
+		out = append(out, in)
 	}
 	return out
 }
